@@ -174,3 +174,35 @@ func vfBytesEq(a, b []byte) bool {
 	}
 	return true
 }
+
+// vfIdleConn: scripted reads, then the connection stays open (Read blocks) until `release` is
+// closed (the peer finishes: EOF) or the connection itself is closed.
+type vfIdleConn struct {
+	vfConn
+	closedCh chan struct{}
+	release  chan struct{}
+}
+
+func vfNewIdleConn(name string, log *[]string) *vfIdleConn {
+	return &vfIdleConn{vfConn: vfConn{name: name, failAt: -1, log: log}, closedCh: make(chan struct{}), release: make(chan struct{})}
+}
+
+func (c *vfIdleConn) Read(p []byte) (int, error) {
+	if c.pos < len(c.reads) && !c.closed {
+		return c.vfConn.Read(p)
+	}
+	select {
+	case <-c.closedCh:
+		return 0, vfErrIO
+	case <-c.release:
+		c.ev("EOF")
+		return 0, io.EOF
+	}
+}
+
+func (c *vfIdleConn) Close() error {
+	if !c.closed {
+		close(c.closedCh)
+	}
+	return c.vfConn.Close()
+}
